@@ -54,10 +54,10 @@ def _effective(eng, w, L, is_date):
     return int(w)
 
 
-def slice_props(eng, L=4, window="sym", date=True, nrows=2, subtotal=True, with_values=True):
+def slice_props(eng, L=4, window="sym", date=True, nrows=2, subtotal=True, with_values=True, none_at=()):
     w = _window(eng, window)
     ins = [C.subtotal("S", [1, 2])] if subtotal else []
-    vals = [eng.real("v%d" % k) for k in range(nrows)] if with_values else None
+    vals = [None if k in none_at else eng.real("v%d" % k) for k in range(nrows)] if with_values else None
     rows = Vn("a", nrows, (1,), vals, insertions=ins) if with_values else ("cat", "a", nrows, {"missing_at": (1,), "insertions": ins})
     cols = ("catdate" if date else "cat", "d", L, {"missing_at": (L,)})
     cw = CellWorld(eng, [rows, cols])
@@ -87,6 +87,8 @@ def slice_props(eng, L=4, window="sym", date=True, nrows=2, subtotal=True, with_
         for j in range(L):
             num = den = None
             for i in range(nrows):
+                if vals[i] is None:
+                    continue      # categories without a numeric value do not take part in the scale mean
                 t = S[i][j] * vals[i]
                 num = t if num is None else num + t
                 den = S[i][j] if den is None else den + S[i][j]
@@ -132,6 +134,7 @@ def specs(tier):
 
     L = 4 if tier == "quick" else 6
     add("slice proportions/index/scale mean, symbolic window", "slice_props", dict(L=L))
+    add("slice scale mean with a value-less category, symbolic window", "slice_props", dict(L=L, nrows=3, subtotal=False, none_at=[1]))
     add("slice proportions, window None", "slice_props", dict(L=L, window=None, with_values=False))
     add("slice proportions, not a date dimension", "slice_props", dict(L=L, date=False, with_values=False, window=2))
     add("slice means, symbolic window, NaN cells", "slice_means", dict(L=L, unavailable=[[0, 1], [1, L - 1]]))
